@@ -2,6 +2,7 @@
 import Garnish.Driver.Proto
 import Garnish.Driver.LexDrv
 import Garnish.Driver.ParseDrv
+import Garnish.Driver.OpDrv
 open Garnish Garnish.Proto
 
 def numCase (f : List String) : String :=
@@ -27,6 +28,7 @@ def runCase (f : List String) : String :=
   match f.head? with
   | some "NUM" => numCase f
   | some "CMP" => cmpCase f
+  | some "OP" => Garnish.Driver.opCase f
   | some "LEX" => Garnish.Driver.lexCase f
   | some "PARSE" => Garnish.Driver.parseCase f
   | _ => "UNKNOWN-SUITE"
